@@ -102,6 +102,9 @@ func Run(h History, opt Options) *Outcome {
 	}
 	md := model.New(h.Cfg.Table)
 	md.NoParse = h.Cfg.NoParse
+	if h.Cfg.CustomCaches {
+		md.StmtCap, md.PortalCap = h.Cfg.StmtCap, h.Cfg.PortalCap
+	}
 	var sentAhead int // bytes of the current message that were already sent with the previous one
 	for i, msg := range h.Msgs {
 		before := len(env.Trace())
